@@ -243,6 +243,25 @@ func GenDB(r *rand.Rand, maxGraphs, maxNodes, maxRels int) DBSpec {
 					Kind: relKinds[r.IntN(len(relKinds))], Props: genProps(r)})
 			}
 		}
+		if len(gs.Rels) > 0 && r.IntN(6) == 0 {
+			// a run of identical parallel relationships (same endpoints, kind and properties, consecutive ids):
+			// whole shards of the dump then hold the same bytes
+			base := gs.Rels[r.IntN(len(gs.Rels))]
+			k := []int{2, 4, 4, 6, 8}[r.IntN(5)]
+			at := r.IntN(len(gs.Rels) + 1)
+			var rels []RelSpec
+			rels = append(rels, gs.Rels[:at]...)
+			for j := 0; j < k; j++ {
+				rels = append(rels, base)
+			}
+			rels = append(rels, gs.Rels[at:]...)
+			rid := uint64(r.IntN(3))
+			for j := range rels {
+				rid += 1
+				rels[j].ID = rid
+			}
+			gs.Rels = rels
+		}
 		if len(gs.Nodes) > 0 && r.IntN(25) == 0 {
 			// one large value: a fragment bigger than a compression block
 			i := r.IntN(len(gs.Nodes))
